@@ -101,8 +101,8 @@ def gen_case(rng, tier):
     # custom kernel_fn (public argument): the default RBF re-implemented by the user (must change nothing), or a
     # genuinely different kernel exp(-|x-y|_1); the Coq model is fed with that kernel's matrix
     kernel = None
-    if kind != "sites" and rng.random() < 0.2:
-        kernel = rng.choice(["rbf", "laplace", "poly", "poly"])      # poly: a kernel whose diagonal k(x,x) is NOT constant
+    if kind != "sites" and rng.random() < 0.3:
+        kernel = rng.choice(["rbf", "laplace", "poly", "poly", "poly"])      # poly: a kernel whose diagonal k(x,x) is NOT constant
     proj = None
     if kind != "sites" and kernel != "poly" and rng.random() < 0.25:
         d2 = rng.randint(1, 3)
